@@ -355,3 +355,263 @@ Proof.
       split; [apply heapfree_app; assumption|reflexivity].
     + inversion E; subst. split; [assumption|]. split; [assumption|]. intros _ _ _ R. congruence.
 Qed.
+
+(* ---------------- the invariant of a run's private state *)
+Definition pinv (T : list string) (p : priv) : Prop :=
+  running p = true -> heapfree (ph p) /\ ctxfree T (ctx p).
+
+Definition target_ok (T : list string) (l : loc) (k : string) : Prop :=
+  match l with
+  | LCtx => tainted T k = false
+  | LObj (P _) => True
+  | LObj (D _) => False
+  end.
+
+Definition loc_priv (l : loc) : Prop := match l with LObj (D _) => False | _ => True end.
+
+Lemma target_ok_priv : forall T l k, target_ok T l k -> loc_priv l.
+Proof. intros T [|[n|n]] k H; cbn in *; auto. Qed.
+
+Lemma cellfree_ptr : forall i, cellfree (CPtr i) = true -> exists n, i = P n.
+Proof. intros [n|n] H; [discriminate|eauto]. Qed.
+
+Lemma lget_free : forall T dh p l k c,
+  heapfree (ph p) -> ctxfree T (ctx p) -> target_ok T l k -> lget dh p l k = Some c -> cellfree c = true.
+Proof.
+  intros T dh p [|[n|n]] k c Hh Hc Ht Hg; cbn in *.
+  - eapply Hc; eassumption.
+  - contradiction.
+  - destruct (nth_error (ph p) n) as [[l|d]|] eqn:En; try discriminate.
+    pose proof (Forall_nth _ _ _ _ Hh En) as Ho. cbn in Ho. eapply forallb_aget; eassumption.
+Qed.
+
+Lemma lset_ok : forall T l k c dh p dh' p',
+  lset l k c dh p = (dh', p') -> loc_priv l -> cellfree c = true ->
+  heapfree (ph p) -> ctxfree T (ctx p) ->
+  dh' = dh /\ (running p' = true -> heapfree (ph p') /\ ctxfree T (ctx p')).
+Proof.
+  intros T [|[n|n]] k c dh p dh' p' E Hl Hc Hh Hx; cbn in *.
+  - inversion E; subst. split; [reflexivity|]. intros _. cbn. split; [assumption|]. apply ctxfree_set; assumption.
+  - contradiction.
+  - destruct (nth_error (ph p) n) as [[l|d]|] eqn:En; inversion E; subst; (split; [reflexivity|]); cbn; intro R;
+      try discriminate.
+    split; [|assumption]. apply Forall_upd; [assumption|]. cbn.
+    pose proof (Forall_nth _ _ _ _ Hh En) as Ho. cbn in Ho. apply forallb_aset; assumption.
+Qed.
+
+Lemma fmt_set_ok : forall T fuel l k v dh p dh' p',
+  fmt_set fuel l k v dh p = (dh', p') -> loc_priv l -> byref_tainted T v = false ->
+  heapfree (ph p) -> ctxfree T (ctx p) ->
+  dh' = dh /\ (running p' = true -> heapfree (ph p') /\ ctxfree T (ctx p')).
+Proof.
+  intros T fuel l k v dh p dh' p' E Hl Hb Hh Hx. unfold fmt_set in E.
+  destruct (fmt fuel dh v p) as [p1 c] eqn:Ef. destruct (fmt_ok T fuel dh v _ _ _ Ef) as [A [B C]].
+  destruct (running p1) eqn:R1.
+  - destruct (C Hh Hx Hb eq_refl) as [Hh1 Hc1]. rewrite <- A in Hx.
+    eapply lset_ok; eassumption.
+  - inversion E; subst. split; [reflexivity|]. intro R. congruence.
+Qed.
+
+Definition step_post (T : list string) (dh dh' : heap) (p' : priv) : Prop :=
+  dh' = dh /\ pinv T p'.
+
+Lemma sub_pairs_ok : forall T (f : string -> tree -> heap -> priv -> heap * priv) ps,
+  Forall (fun kv : string * tree => byref_tainted T (snd kv) = false ->
+            forall dh p dh' p', f (fst kv) (snd kv) dh p = (dh', p') -> pinv T p -> step_post T dh dh' p') ps ->
+  existsb (fun kt => byref_tainted T (snd kt)) ps = false ->
+  forall dh p dh' p', sub_pairs f ps dh p = (dh', p') -> pinv T p -> step_post T dh dh' p'.
+Proof.
+  intros T f ps H. induction H as [|[k v] r Hkv Hr IH]; intros Hb dh p dh' p' E Hp; cbn in E.
+  - inversion E; subst. split; [reflexivity|assumption].
+  - cbn in Hb. apply orb_false_iff in Hb. destruct Hb as [Hb1 Hb2].
+    destruct (f k v dh p) as [dh1 p1] eqn:E1. cbn in Hkv.
+    destruct (Hkv Hb1 _ _ _ _ E1 Hp) as [A B]. subst dh1.
+    eapply IH; eassumption.
+Qed.
+
+Definition tree_step_spec (T : list string)
+  (f : loc -> string -> tree -> heap -> priv -> heap * priv) (v : tree) : Prop :=
+  forall l k dh p dh' p', f l k v dh p = (dh', p') -> byref_tainted T v = false -> target_ok T l k ->
+    pinv T p -> step_post T dh dh' p'.
+
+Lemma forallb_app_true : forall A (f : A -> bool) l1 l2,
+  forallb f l1 = true -> forallb f l2 = true -> forallb f (l1 ++ l2) = true.
+Proof. intros. rewrite forallb_app. rewrite H, H0. reflexivity. Qed.
+
+Lemma merge_tree_ok : forall T fuel v, tree_step_spec T (merge_tree fuel) v.
+Proof.
+  intros T fuel. induction v as [z|m k0|l0 IH|d IH] using tree_ind';
+    intros l k dh p dh' p' E Hb Ht Hp; cbn [merge_tree] in E;
+    (destruct (running p) eqn:R; cbn [negb] in E; [|inversion E; subst; split; [reflexivity|assumption]]);
+    destruct (Hp R) as [Hh Hx]; pose proof (target_ok_priv _ _ _ Ht) as Hl.
+  - destruct (fmt_set_ok T _ _ _ _ _ _ _ _ E Hl Hb Hh Hx) as [A B]. split; [assumption|exact B].
+  - destruct (fmt_set_ok T _ _ _ _ _ _ _ _ E Hl Hb Hh Hx) as [A B]. split; [assumption|exact B].
+  - (* TList *)
+    assert (Hset : forall dh' p', fmt_set fuel l k (TList l0) dh p = (dh', p') -> step_post T dh dh' p').
+    { intros dh2 p2 E2. destruct (fmt_set_ok T _ _ _ _ _ _ _ _ E2 Hl Hb Hh Hx) as [A B]. split; assumption. }
+    destruct (lget dh p l k) as [[z|i]|] eqn:Eg; try (apply Hset; exact E).
+    pose proof (lget_free T _ _ _ _ _ Hh Hx Ht Eg) as Hi. destruct (cellfree_ptr _ Hi) as [n Hn]. subst i.
+    cbn [hget] in E. destruct (nth_error (ph p) n) as [[cur|dd]|] eqn:En; try (apply Hset; exact E).
+    destruct (fmt fuel dh (TList l0) p) as [p1 c] eqn:Ef.
+    destruct (fmt_ok T fuel dh _ _ _ _ Ef) as [A [B C]].
+    destruct (running p1) eqn:R1; [|inversion E; subst; split; [reflexivity|intro; congruence]].
+    destruct (C Hh Hx Hb eq_refl) as [Hh1 Hc1].
+    destruct c as [z|j]; [inversion E; subst; split; [reflexivity|intro; discriminate]|].
+    destruct (cellfree_ptr _ Hc1) as [m Hm]. subst j. cbn [hget] in E.
+    destruct (nth_error (ph p1) m) as [[new|dd]|] eqn:Em;
+      try (inversion E; subst; split; [reflexivity|intro; discriminate]).
+    cbn in E. inversion E; subst. split; [reflexivity|]. intros _. cbn. split; [|rewrite A; assumption].
+    apply Forall_upd; [assumption|]. cbn. apply forallb_app_true.
+    + exact (Forall_nth _ _ _ _ Hh En).
+    + exact (Forall_nth _ _ _ _ Hh1 Em).
+  - (* TDict *)
+    assert (Hset : forall dh' p', fmt_set fuel l k (TDict d) dh p = (dh', p') -> step_post T dh dh' p').
+    { intros dh2 p2 E2. destruct (fmt_set_ok T _ _ _ _ _ _ _ _ E2 Hl Hb Hh Hx) as [A B]. split; assumption. }
+    destruct (lget dh p l k) as [[z|i]|] eqn:Eg; try (apply Hset; exact E).
+    pose proof (lget_free T _ _ _ _ _ Hh Hx Ht Eg) as Hi. destruct (cellfree_ptr _ Hi) as [n Hn]. subst i.
+    cbn [hget] in E. destruct (nth_error (ph p) n) as [[cur|dd]|] eqn:En; try (apply Hset; exact E).
+    cbn in Hb. eapply sub_pairs_ok; [| exact Hb | exact E | exact Hp].
+    eapply Forall_impl; [|exact IH]. intros [k' v'] Hs Hb' dh0 p0 dh1 p1 E1 Hp0. cbn in *.
+    eapply Hs; try eassumption. exact I.
+Qed.
+
+Lemma defaults_tree_ok : forall T fuel v, tree_step_spec T (defaults_tree fuel) v.
+Proof.
+  intros T fuel. induction v as [z|m k0|l0 IH|d IH] using tree_ind';
+    intros l k dh p dh' p' E Hb Ht Hp; cbn [defaults_tree] in E;
+    (destruct (running p) eqn:R; cbn [negb] in E; [|inversion E; subst; split; [reflexivity|assumption]]);
+    destruct (Hp R) as [Hh Hx]; pose proof (target_ok_priv _ _ _ Ht) as Hl;
+    (destruct (lget dh p l k) as [c0|] eqn:Eg;
+     [|destruct (fmt_set_ok T _ _ _ _ _ _ _ _ E Hl Hb Hh Hx) as [A B]; split; assumption]).
+  - inversion E; subst. split; [reflexivity|assumption].
+  - inversion E; subst. split; [reflexivity|assumption].
+  - inversion E; subst. split; [reflexivity|assumption].
+  - destruct c0 as [z|i]; [inversion E; subst; split; [reflexivity|assumption]|].
+    pose proof (lget_free T _ _ _ _ _ Hh Hx Ht Eg) as Hi. destruct (cellfree_ptr _ Hi) as [n Hn]. subst i.
+    cbn [hget] in E. destruct (nth_error (ph p) n) as [[cur|dd]|] eqn:En;
+      try (inversion E; subst; split; [reflexivity|assumption]).
+    cbn in Hb. eapply sub_pairs_ok; [| exact Hb | exact E | exact Hp].
+    eapply Forall_impl; [|exact IH]. intros [k' v'] Hs Hb' dh0 p0 dh1 p1 E1 Hp0. cbn in *.
+    eapply Hs; try eassumption. exact I.
+Qed.
+
+(* ---------------- one operation *)
+Lemma running_set_ctx : forall c p, running (set_ctx c p) = running p. Proof. reflexivity. Qed.
+Lemma running_set_ph : forall h p, running (set_ph h p) = running p. Proof. reflexivity. Qed.
+
+Lemma bind_byref_ok : forall T fuel k m k' dh p dh' p',
+  m <> RCopy -> fmt_set fuel LCtx k (TRef m k') dh p = (dh', p') ->
+  heapfree (ph p) -> ctxfree T (ctx p) -> step_post (taint k T) dh dh' p'.
+Proof.
+  intros T fuel k m k' dh p dh' p' Hm E Hh Hx. unfold fmt_set in E. cbn [fmt] in E.
+  destruct (aget k' (ctx p)) as [c0|].
+  - destruct m; [congruence| |]; cbn in E; destruct (running p) eqn:R; inversion E; subst;
+      (split; [reflexivity|]); intro R'; try congruence;
+      cbn; (split; [assumption|]); apply ctxfree_set_taint; assumption.
+  - cbn in E. inversion E; subst. split; [reflexivity|]. intro R. discriminate.
+Qed.
+
+Lemma bind_ok : forall T T1 fuel k t dh p dh' p',
+  bind_taint T k t = Some T1 -> fmt_set fuel LCtx k t dh p = (dh', p') ->
+  heapfree (ph p) -> ctxfree T (ctx p) -> step_post T1 dh dh' p'.
+Proof.
+  intros T T1 fuel k t dh p dh' p' Hb E Hh Hx.
+  assert (Hgen : byref_tainted T t = false -> T1 = untaint k T -> step_post T1 dh dh' p').
+  { intros Hf HT. subst T1. unfold fmt_set in E. destruct (fmt fuel dh t p) as [p1 c] eqn:Ef.
+    destruct (fmt_ok T fuel dh t _ _ _ Ef) as [A [B C]]. destruct (running p1) eqn:R1.
+    - destruct (C Hh Hx Hf eq_refl) as [Hh1 Hc1]. cbn in E. inversion E; subst.
+      split; [reflexivity|]. intros _. cbn. split; [assumption|]. rewrite A.
+      apply ctxfree_set_untaint; assumption.
+    - inversion E; subst. split; [reflexivity|]. intro R. congruence. }
+  destruct t as [z|m k'|l|d]; cbn [bind_taint] in Hb.
+  - inversion Hb; subst. apply Hgen; reflexivity.
+  - destruct m.
+    + inversion Hb; subst. apply Hgen; reflexivity.
+    + inversion Hb; subst. destruct (tainted T k') eqn:Et; [|apply Hgen; [exact Et|reflexivity]].
+      eapply bind_byref_ok; try eassumption. discriminate.
+    + inversion Hb; subst. destruct (tainted T k') eqn:Et; [|apply Hgen; [exact Et|reflexivity]].
+      eapply bind_byref_ok; try eassumption. discriminate.
+  - destruct (byref_tainted T (TList l)) eqn:Ef; [discriminate|]. inversion Hb; subst. apply Hgen; auto.
+  - destruct (byref_tainted T (TDict d)) eqn:Ef; [discriminate|]. inversion Hb; subst. apply Hgen; auto.
+Qed.
+
+Lemma append_to_ok : forall T dh p c a dh' p',
+  append_to dh p c a = (dh', p') -> cellfree c = true -> cellfree a = true ->
+  heapfree (ph p) -> ctxfree T (ctx p) -> step_post T dh dh' p'.
+Proof.
+  intros T dh p c a dh' p' E Hc Ha Hh Hx. unfold append_to in E. destruct c as [z|i].
+  - inversion E; subst. split; [reflexivity|]. intro R. discriminate.
+  - destruct (cellfree_ptr _ Hc) as [n Hn]. subst i. cbn [hget hput] in E.
+    destruct (nth_error (ph p) n) as [[l|d]|] eqn:En; inversion E; subst;
+      (split; [reflexivity|]); intro R; try discriminate.
+    cbn. split; [|assumption]. apply Forall_upd; [assumption|]. cbn. apply forallb_app_true.
+    + exact (Forall_nth _ _ _ _ Hh En).
+    + cbn. rewrite Ha. reflexivity.
+Qed.
+
+Lemma bind_new_list_ok : forall T k a p,
+  cellfree a = true -> heapfree (ph p) -> ctxfree T (ctx p) -> running p = true ->
+  pinv T (bind_new_list k a p).
+Proof.
+  intros T k a p Ha Hh Hx R _. unfold bind_new_list, alloc. cbn. split.
+  - apply heapfree_app; [assumption|]. cbn. rewrite Ha. reflexivity.
+  - apply ctxfree_set; [assumption|reflexivity].
+Qed.
+
+Lemma merge_fold_ok : forall fuel ps T T1 dh p dh' p',
+  fold_taint merge_taint T ps = Some T1 ->
+  sub_pairs (merge_tree fuel LCtx) ps dh p = (dh', p') -> pinv T p -> step_post T1 dh dh' p'.
+Proof.
+  induction ps as [|[k v] r IH]; intros T T1 dh p dh' p' Hf E Hp; cbn in Hf, E.
+  - inversion Hf; inversion E; subst. split; [reflexivity|assumption].
+  - destruct (merge_taint T (k, v)) as [T2|] eqn:Em; [|discriminate].
+    destruct (merge_tree fuel LCtx k v dh p) as [dh1 p1] eqn:E1.
+    assert (Hs : step_post T2 dh dh1 p1).
+    { unfold merge_taint in Em. cbn [fst snd] in Em. destruct v as [z|m k'|l|d].
+      - cbn in Em. destruct (tainted T k) eqn:Et; cbn in Em; [discriminate|]. inversion Em; subst.
+        exact (merge_tree_ok T2 fuel (TInt z) LCtx k dh p dh1 p1 E1 eq_refl Et Hp).
+      - cbn [merge_tree] in E1. destruct (running p) eqn:R; cbn [negb] in E1.
+        + destruct (Hp R) as [Hh Hx]. eapply bind_ok; eassumption.
+        + inversion E1; subst. split; [reflexivity|]. intro R'. congruence.
+      - destruct (tainted T k || byref_tainted T (TList l)) eqn:Eo; [discriminate|]. inversion Em; subst.
+        apply orb_false_iff in Eo. destruct Eo as [Et Eb].
+        exact (merge_tree_ok T2 fuel (TList l) LCtx k dh p dh1 p1 E1 Eb Et Hp).
+      - destruct (tainted T k || byref_tainted T (TDict d)) eqn:Eo; [discriminate|]. inversion Em; subst.
+        apply orb_false_iff in Eo. destruct Eo as [Et Eb].
+        exact (merge_tree_ok T2 fuel (TDict d) LCtx k dh p dh1 p1 E1 Eb Et Hp). }
+    destruct Hs as [A B]. subst dh1. eapply IH; eassumption.
+Qed.
+
+Lemma defaults_fold_ok : forall fuel ps T T1 dh p dh' p',
+  fold_taint defaults_taint T ps = Some T1 ->
+  sub_pairs (defaults_tree fuel LCtx) ps dh p = (dh', p') -> pinv T p -> step_post T1 dh dh' p'.
+Proof.
+  induction ps as [|[k v] r IH]; intros T T1 dh p dh' p' Hf E Hp; cbn in Hf, E.
+  - inversion Hf; inversion E; subst. split; [reflexivity|assumption].
+  - destruct (defaults_taint T (k, v)) as [T2|] eqn:Em; [|discriminate].
+    destruct (defaults_tree fuel LCtx k v dh p) as [dh1 p1] eqn:E1.
+    assert (Hs : step_post T2 dh dh1 p1).
+    { unfold defaults_taint in Em. cbn [fst snd] in Em. destruct (tainted T k) eqn:Et; [discriminate|].
+      assert (Hplain : byref_tainted T v = false -> T2 = T -> step_post T2 dh dh1 p1).
+      { intros Hb HT. subst T2. exact (defaults_tree_ok T fuel v LCtx k dh p dh1 p1 E1 Hb Et Hp). }
+      destruct v as [z|m k'|l|d].
+      - inversion Em; subst. apply Hplain; reflexivity.
+      - assert (Hby : forall mm, mm <> RCopy -> m = mm ->
+                  T2 = (if tainted T k' then taint k T else T) -> step_post T2 dh dh1 p1).
+        { intros mm Hne Hm HT. destruct (tainted T k') eqn:Et'.
+          - (* the default may bind k to a definition object: k becomes tainted *)
+            subst T2. cbn [defaults_tree] in E1. destruct (running p) eqn:R; cbn [negb] in E1;
+              [|inversion E1; subst; split; [reflexivity|intro; congruence]].
+            destruct (Hp R) as [Hh Hx]. cbn [lget] in E1. destruct (aget k (ctx p)) as [c0|] eqn:Eg.
+            + inversion E1; subst. split; [reflexivity|]. intros _. split; [assumption|].
+              apply ctxfree_taint. assumption.
+            + eapply bind_byref_ok; try eassumption. congruence.
+          - apply Hplain; [|assumption]. subst m. destruct mm; [congruence| |]; cbn; assumption. }
+        destruct m.
+        + inversion Em; subst. apply Hplain; reflexivity.
+        + inversion Em; subst. eapply (Hby RFlat); [discriminate|reflexivity|reflexivity].
+        + inversion Em; subst. eapply (Hby RPy); [discriminate|reflexivity|reflexivity].
+      - destruct (byref_tainted T (TList l)) eqn:Eo; [discriminate|]. inversion Em; subst. apply Hplain; auto.
+      - destruct (byref_tainted T (TDict d)) eqn:Eo; [discriminate|]. inversion Em; subst. apply Hplain; auto. }
+    destruct Hs as [A B]. subst dh1. eapply IH; eassumption.
+Qed.
